@@ -481,10 +481,15 @@ func faultsFor(r *rng.R, kind string, withCrash bool) []Fault {
 	case "remove":
 		out = []Fault{{FEIO, 0}, {FENOENT, 0}}
 	case "write":
-		out = []Fault{{FEIO, 0}, {FPartial, r.Range(1, 6)}}
+		out = []Fault{{FEIO, 0}, {FPartial, r.Range(1, 6)}, {FWrapENOENT, 0}}
 		if withCrash {
 			out = append(out, Fault{FCrash, r.Range(1, 6)})
 		}
+	case "create":
+		// error VALUES: the default EACCES, a bare ENOENT (folder absent) and an ENOENT wrapped with %w
+		out = []Fault{{FEIO, 0}, {FENOENT, 0}, {FWrapENOENT, 0}}
+	case "chmod":
+		out = []Fault{{FEIO, 0}, {FENOENT, 0}}
 	default:
 		out = []Fault{{FEIO, 0}}
 	}
